@@ -17,10 +17,16 @@
 (* A descriptor names the package under test (PUT):                        *)
 (*   kinds  the factory functions it offers, a subset of dawgie.Factories  *)
 (*   shape  how its algorithms declare inputs (see DepGran / FbGran)       *)
+(*   vals   how the values of the PUT are typed: "own" = every value its    *)
+(*          own subclass of dawgie.Value, one state vector s per algorithm; *)
+(*          "shared" = ALL values of the PUT are instances of ONE Value     *)
+(*          class (what distinguishes them is the payload of the instance)  *)
+(*          and every algorithm has a second state vector s2 (value v)      *)
 (*   viol   "none" or the name of ONE clause of rule_01..rule_11 that the  *)
 (*          package breaks                                                 *)
 (*   pos    the element that carries the violation: [k |-> factory kind,   *)
 (*          e |-> element], e in  fac | p1..p4 | bot | a1 | a1.s | a1.s.v  *)
+(*          | a1.s2.v                                                      *)
 (*          | a1.dep | a1.fb | e1 | e2 | pkg                               *)
 (* Every alg-kind factory of the PUT has algorithm a1 (and a2 in shape     *)
 (* chain2), each with one state vector s holding the values v and w; the   *)
@@ -164,34 +170,45 @@ RefPositions(K, s, v) ==
                   /\ FbGran(s, q[1], q[2]) \in NeedGran(v)
                   /\ v \notin {"dep_algref", "prev_mismatch"} } }
 
-Positions(K, s, x) ==
+(* value layouts.  With one shared class only the clauses that depend on the
+   INSTANCE (its payload, its key in the state vector) can be broken at one
+   position without breaking the others. *)
+ValLayouts == {"own", "shared"}
+SharedViol == {"val_unpicklable", "val_ver", "val_dot"}
+SVals(vl)  == IF vl = "shared" THEN {"s.v", "s.w", "s2.v"} ELSE {"s.v", "s.w"}
+ValPositions(K, s, vl) ==
+    UNION { { P(k, a \o "." \o n) : a \in SeqRange(AlgSeq(K, s, k)), n \in SVals(vl) } : k \in K \cap AlgKinds }
+
+Positions(K, s, vl, x) ==
+    IF vl = "shared" THEN (IF x.v \in SharedViol THEN ValPositions(K, s, vl) ELSE {}) ELSE
     CASE x.c = "fac"   -> { P(k, "fac") : k \in K }
       [] x.c = "param" -> UNION { { P(k, "p" \o Num(i)) : i \in 1..NParams(k) } : k \in K \cap AlgKinds }
       [] x.c = "bot"   -> { P(k, "bot") : k \in K \cap AlgKinds }
       [] x.c = "alg"   -> UNION { { P(k, a) : a \in SeqRange(AlgSeq(K, s, k)) } : k \in K \cap AlgKinds }
       [] x.c = "sv"    -> UNION { { P(k, a \o ".s") : a \in SeqRange(AlgSeq(K, s, k)) } : k \in K \cap AlgKinds }
-      [] x.c = "val"   -> UNION { { P(k, a \o ".s." \o n) : a \in SeqRange(AlgSeq(K, s, k)), n \in {"v", "w"} } : k \in K \cap AlgKinds }
+      [] x.c = "val"   -> ValPositions(K, s, vl)
       [] x.c = "ref"   -> RefPositions(K, s, x.v)
       [] x.c = "event" -> IF "events" \in K THEN { P("events", "e1"), P("events", "e2") } ELSE {}
       [] OTHER         -> {}
 
-D(K, s, v, p) == [kinds |-> K, shape |-> s, viol |-> v, pos |-> p]
+D(K, s, vl, v, p) == [kinds |-> K, shape |-> s, vals |-> vl, viol |-> v, pos |-> p]
+LayoutsOf(K) == IF K \cap AlgKinds = {} THEN {"own"} ELSE ValLayouts
 KindSets == (SUBSET Kinds) \ {{}}
 
-Conforming  == UNION { { D(K, s, "none", NoPos) : s \in ShapesOf(K) } : K \in KindSets }
+Conforming  == UNION { UNION { { D(K, s, vl, "none", NoPos) : s \in ShapesOf(K) } : vl \in LayoutsOf(K) } : K \in KindSets }
 ViolatingOf(VS) ==
-    UNION { UNION { UNION { { D(K, s, x.v, p) : p \in Positions(K, s, x) } : x \in VS } : s \in ShapesOf(K) } : K \in KindSets }
-Descriptors == Conforming \cup ViolatingOf(Viol) \cup { D({}, "root", NoFactory.v, P("-", "pkg")) }
+    UNION { UNION { UNION { UNION { { D(K, s, vl, x.v, p) : p \in Positions(K, s, vl, x) } : x \in VS } : s \in ShapesOf(K) } : vl \in LayoutsOf(K) } : K \in KindSets }
+Descriptors == Conforming \cup ViolatingOf(Viol) \cup { D({}, "root", "own", NoFactory.v, P("-", "pkg")) }
 Observed    == ViolatingOf(Unclaimed)
 
 (* membership in Descriptors \cup Observed without building the sets *)
 WellFormed(d) ==
     /\ d.kinds \subseteq Kinds
-    /\ \/ d.kinds = {} /\ d.shape = "root" /\ d.viol = NoFactory.v /\ d.pos = P("-", "pkg")
-       \/ /\ d.kinds # {} /\ d.shape \in ShapesOf(d.kinds)
+    /\ \/ d.kinds = {} /\ d.shape = "root" /\ d.vals = "own" /\ d.viol = NoFactory.v /\ d.pos = P("-", "pkg")
+       \/ /\ d.kinds # {} /\ d.shape \in ShapesOf(d.kinds) /\ d.vals \in LayoutsOf(d.kinds)
           /\ \/ d.viol = "none" /\ d.pos = NoPos
              \/ /\ d.viol \in { x.v : x \in Viol \cup Unclaimed }
-                /\ d.pos \in Positions(d.kinds, d.shape, VR(d.viol))
+                /\ d.pos \in Positions(d.kinds, d.shape, d.vals, VR(d.viol))
 
 -----------------------------------------------------------------------------
 (* PROPERTY LEVEL: the meaning of C16 *)
@@ -204,7 +221,7 @@ Accept(d) == d.viol = "none"
 Listed(d, k) == IF d.viol = "bot_empty" /\ d.pos.k = k THEN <<>> ELSE AlgSeq(d.kinds, d.shape, k)
 DepOf(d, k, a) == IF DepGran(d.shape, k, a) # "none" THEN { P(k, a \o ".dep") } ELSE {}
 FbOf(d, k, a)  == IF FbGran(d.shape, k, a) # "none" THEN { P(k, a \o ".fb") } ELSE {}
-BodyOf(k, a)   == { P(k, a \o ".s"), P(k, a \o ".s.v"), P(k, a \o ".s.w") }
+BodyOf(d, k, a) == { P(k, a \o ".s") } \cup { P(k, a \o "." \o n) : n \in SVals(d.vals) }
 
 RECURSIVE LoopPlain(_, _, _, _)      \* analysis and task branches
 LoopPlain(d, k, q, st) ==
@@ -212,7 +229,7 @@ LoopPlain(d, k, q, st) ==
     ELSE LET x == Head(q) IN
          LoopPlain(d, k, Tail(q),
                    [a |-> <<k, x>>, raised |-> st.raised,
-                    seen |-> st.seen \cup {P(k, x)} \cup FbOf(d, k, x) \cup DepOf(d, k, x) \cup BodyOf(k, x)])
+                    seen |-> st.seen \cup {P(k, x)} \cup FbOf(d, k, x) \cup DepOf(d, k, x) \cup BodyOf(d, k, x)])
 
 RECURSIVE LoopRegress(_, _, _)       \* regress branch
 LoopRegress(d, q, st) ==
@@ -224,7 +241,7 @@ LoopRegress(d, q, st) ==
                    [a |-> st.a, raised |-> FALSE,
                     seen |-> st.seen \cup {P("regress", r)}
                              \cup (IF Pinned THEN FbOf(d, st.a[1], st.a[2]) ELSE FbOf(d, "regress", r))
-                             \cup DepOf(d, "regress", r) \cup BodyOf("regress", r)])
+                             \cup DepOf(d, "regress", r) \cup BodyOf(d, "regress", r)])
 
 Branch(d, e, st) ==
     CASE e = "events"  -> [st EXCEPT !.seen = @ \cup {P("events", "e1"), P("events", "e2")}]
